@@ -31,6 +31,46 @@ def eager_graph(name, with_expected=False, reference=None):
     return snap
 
 
+def _eager_job(args):
+    restr, nets, with_expected = args
+    C.repo_python_setup()
+    import unittest_importer  # noqa: F401
+    g, rec = R.parse_eager(restr, nets)
+    snap = S.snapshot(g, rec)
+    snap["label"] = "pair eager (%s on %s)" % (restr, nets)
+    if with_expected:
+        snap["expected"] = [list(e) for e in R.expected_edges(C.REPO, restr)]
+        snap["hasexpected"] = True
+    return snap
+
+
+def leaf_names():
+    """all leaf test variants of the suite (short restriction form), read from the configuration alone"""
+    return [n for n, _ in R.leaf_vms(C.REPO, "leaves")]
+
+
+def pair_graphs(rng, n, with_expected=False, nets="net1"):
+    """eager parses of selections made of two leaf tests: the order and partial overlap of their setup matters for the
+    get-or-parse of parents (one producer of a multi-producer dependency already parsed, shared setup, clones)"""
+    from ..props.c15 import fork_map
+    leaves = leaf_names()
+    fixed = [("leaves.tutorial_get.explicit_noop", "leaves.tutorial_get.implicit_both"),
+             ("leaves.tutorial_get.implicit_both", "leaves.tutorial_finale"),
+             ("leaves.tutorial_gui.client_clicked", "leaves.tutorial_get.implicit_both"),
+             ("leaves.quicktest.tutorial1", "leaves.tutorial3.no_remote")]
+    pairs = [p for p in fixed if p[0] in leaves and p[1] in leaves]
+    allpairs = [(a, b) for i, a in enumerate(leaves) for b in leaves[i + 1:]]
+    rng.shuffle(allpairs)
+    pairs += allpairs[:max(0, n - len(pairs))]
+    items = [("%s,%s" % (a.replace(".", "..", 1), b.replace(".", "..", 1)), nets, with_expected) for a, b in pairs]
+    out = []
+    for it, snap in zip(items, fork_map(_eager_job, items)):
+        if "harness_error" in snap:
+            raise C.MachineryError("parse of %s failed in the harness: %s" % (it[0], snap["harness_error"]))
+        out.append(snap)
+    return out
+
+
 def lazy_graphs(name, seeds, work):
     """real lazy traversals (parse on demand) with the parse recorder installed; returns snapshots after the traversal"""
     from ..sched import pool as P
